@@ -38,7 +38,7 @@ from harness import core
 SPEC_DIR = os.path.join(core.SPECS, "storage")
 
 DTYPES = ["int16", "int32", "int64", "float32", "float64"]     # element type tags 1..5 of H5Rows
-ATOM_SELS = [[0, 2], [1], [1, 3]]                              # ParallelLoad!AtomSels
+ATOM_SELS = [[0, 2], [1], [3, 1]]                              # ParallelLoad!AtomSels
 N_ATOMS = 4
 NONE = 1000000                                                 # PySlice!None
 
@@ -58,7 +58,9 @@ H5_SCOPES = {
         mc=[dict(MaxRows=3, MaxLen=3, NTags=2)],
         emit=[dict(EmitRows="{1, 2, 3}", EmitRect="{1, 2, 3, 5}", SmallN=3, MaxLen=4, NTags=5, Shifts=1),
               dict(EmitRows="{9, 10, 11}", EmitRect="{4}", SmallN=0, MaxLen=4, NTags=5, Shifts=2),
-              dict(EmitRows="{99, 100, 101}", EmitRect="{7}", SmallN=0, MaxLen=4, NTags=5, Shifts=1)]),
+              dict(EmitRows="{99, 100, 101}", EmitRect="{7}", SmallN=0, MaxLen=4, NTags=5, Shifts=1),
+              # a rectangular array with more rows than any block size a reader might use (2^16 + a bit), strides 2, 3
+              dict(EmitRows="{1}", EmitRect="{70001}", SmallN=1, MaxLen=1, NTags=5, Shifts=1, OldMax=0)]),
     "thorough": dict(
         mc=[dict(MaxRows=3, MaxLen=4, NTags=2), dict(MaxRows=4, MaxLen=2, NTags=1)],
         emit=[dict(EmitRows="{1, 2, 3}", EmitRect="{1, 2, 3, 5}", SmallN=3, MaxLen=4, NTags=5, Shifts=1),
@@ -66,7 +68,8 @@ H5_SCOPES = {
               dict(EmitRows="{99, 100, 101}", EmitRect="{7}", SmallN=0, MaxLen=4, NTags=5, Shifts=2),
               dict(EmitRows="{999}", EmitRect="{6}", SmallN=0, MaxLen=4, NTags=5, Shifts=1, OldMax=0),
               dict(EmitRows="{1000}", EmitRect="{6}", SmallN=0, MaxLen=4, NTags=5, Shifts=1, OldMax=0),
-              dict(EmitRows="{1001}", EmitRect="{6}", SmallN=0, MaxLen=4, NTags=5, Shifts=1, OldMax=0)]),
+              dict(EmitRows="{1001}", EmitRect="{6}", SmallN=0, MaxLen=4, NTags=5, Shifts=1, OldMax=0),
+              dict(EmitRows="{1}", EmitRect="{70001, 131077}", SmallN=1, MaxLen=1, NTags=5, Shifts=1, OldMax=0)]),
 }
 
 
